@@ -86,6 +86,8 @@ func classify(s *Spec, t *Taint, inMark bool) {
 		for i := range s.S {
 			Sf(i)
 		}
+	case "ukeymarker":
+		N(0) // a type-mark extension declared by a user type
 	case "domain", "handleddomain":
 		if inMark {
 			N(0) // type-mark extensions are safe by declaration
